@@ -13,6 +13,16 @@ package main
 // Projection of a tree node: {"k": kind, ...children}; nil and empty slices both project to [] (the
 // JSON form cannot distinguish them); a float64 projects to its shortest round-trip decimal string;
 // int64 millisecond instants project to [seconds, ms], intervals to [days, ms of day].
+//
+// Overlapping parse calls (parse determinism: the statement is a function of the text, whatever other
+// calls are in flight): a fixed, seeded list of texts is parsed sequentially (ParseRef: what each text
+// means) and then by several goroutines at once (ParseBegin / ParseEnd per call, in the order of a
+// shared counter read right before / right after the call); TLC compares every result with the
+// sequential one.  Variants: one P (goroutines interleave by preemption only), two Ps with a goroutine
+// forcing GC cycles (every cycle stops the world: many more preemptions and moves between Ps), all Ps.
+// Which interleavings occur there is up to the scheduler; the scripted form -- a second Parse started
+// INSIDE the first one, on the same goroutine -- needs the parser seam of package sql (a `verif` hook)
+// and lives in stmtwire_overlap.go (swOverlapLeg).
 
 import (
 	"bytes"
@@ -22,8 +32,12 @@ import (
 	"fmt"
 	"math/rand"
 	"os"
+	"runtime"
+	"sort"
 	"strconv"
 	"strings"
+	"sync"
+	"sync/atomic"
 	"time"
 
 	"github.com/lindb/lindb/aggregation/function"
@@ -614,6 +628,10 @@ type swRun struct {
 	errs     map[string]int
 	parsed   int
 	failed   int
+	// per run of the concurrent leg: calls, and calls with another call's begin or end between their own begin and end
+	conc []map[string]any
+	// scripted overlap histories: windows of a call in which at least one further call ran
+	overlapWindows int
 }
 
 func (r *swRun) exprWire(e stmt.Expr) {
@@ -749,6 +767,173 @@ func (r *swRun) statement(text string, abs bool, rng *rand.Rand) {
 	}
 }
 
+// ---------------------------------------------------------------- overlapping parse calls
+// one text of the fixed list, and whether it gives an absolute time range at both ends (else the clock is an input)
+type swText struct {
+	text string
+	abs  bool
+}
+
+// the scripted overlap histories (a Parse started inside another Parse through the parser seam of package sql);
+// set by stmtwire_overlap.go, which needs the `verif` hook sql.VerifSetSQLParserFunc
+var swOverlapLeg func(r *swRun, texts []swText, rng *rand.Rand)
+
+// what one sql.Parse returned, as the trace shows it: the projection of the statement, or an error
+func swResult(s stmt.Statement, err error, panicked any) map[string]any {
+	if panicked != nil {
+		return map[string]any{"k": "panic"}
+	}
+	if err != nil {
+		return map[string]any{"k": "error"}
+	}
+	return swStmt(s)
+}
+
+// a seeded list of distinct texts from the grammar (queries with absolute and clock-relative ranges, odd
+// productions, metadata statements; texts the parser rejects stay in: rejection is a result too)
+func swTextList(seed int64, depth, n int) []swText {
+	g := &swGen{rng: rand.New(rand.NewSource(seed*7919 + 17)), depth: depth}
+	seen := map[string]bool{}
+	out := []swText{}
+	for tries := 0; len(out) < n && tries < 50*n; tries++ {
+		t := swText{abs: true}
+		if tries%6 == 5 {
+			t.text = g.metadata()
+		} else {
+			t.text, t.abs = g.query(tries%5 == 4)
+		}
+		if !seen[t.text] {
+			seen[t.text] = true
+			out = append(out, t)
+		}
+	}
+	return out
+}
+
+// one sequential parse (no call in flight)
+func (r *swRun) parseRef(t *swText) {
+	s, err := sql.Parse(t.text)
+	if q, ok := s.(*stmt.Query); ok && err == nil && (q.TimeRange.Start > swClockFloor || q.TimeRange.End > swClockFloor) {
+		t.abs = false // the parser took (part of) the range from the clock
+	}
+	r.rec.Emit("ParseRef", trace.F{"text": t.text, "abs": t.abs, "r": swResult(s, err, nil)})
+	r.kind["ParseRef"]++
+}
+
+// one call of sql.Parse between two readings of the shared counter
+type swCall struct {
+	id, text   int
+	begin, end int64
+	s          stmt.Statement
+	err        error
+	panicked   any
+}
+
+func (c *swCall) run(text string, clock *atomic.Int64) {
+	c.begin = clock.Add(1)
+	func() {
+		defer func() {
+			if p := recover(); p != nil {
+				c.panicked = p
+			}
+		}()
+		c.s, c.err = sql.Parse(text)
+	}()
+	c.end = clock.Add(1)
+}
+
+// workers goroutines parse the list iters times each (every goroutine starts at another text); procs > 0 sets
+// GOMAXPROCS for the run; churn adds a goroutine that forces GC cycles (every cycle preempts whoever runs)
+func (r *swRun) concurrent(texts []swText, procs, workers, iters int, churn bool) {
+	r.rec.Reset(trace.F{"kind": "concurrent", "procs": procs, "workers": workers, "iters": iters, "churn": churn})
+	for i := range texts {
+		r.parseRef(&texts[i])
+		r.parseRef(&texts[i])
+	}
+	per := iters * len(texts)
+	calls := make([][]swCall, workers)
+	var (
+		clock atomic.Int64
+		done  atomic.Bool
+		wg    sync.WaitGroup
+		cwg   sync.WaitGroup
+	)
+	start := make(chan struct{})
+	set := procs
+	if procs > 0 {
+		procs = runtime.GOMAXPROCS(procs)
+	}
+	for w := 0; w < workers; w++ {
+		calls[w] = make([]swCall, per)
+		wg.Add(1)
+		go func(w int) {
+			defer wg.Done()
+			<-start
+			for i := range calls[w] {
+				c := &calls[w][i]
+				c.id, c.text = w*per+i+1, (i+w*3)%len(texts)
+				c.run(texts[c.text].text, &clock)
+			}
+		}(w)
+	}
+	if churn {
+		cwg.Add(1)
+		go func() {
+			defer cwg.Done()
+			<-start
+			for !done.Load() {
+				runtime.GC()
+			}
+		}()
+	}
+	t0 := time.Now()
+	close(start)
+	wg.Wait()
+	took := time.Since(t0)
+	done.Store(true)
+	cwg.Wait()
+	if procs > 0 {
+		runtime.GOMAXPROCS(procs)
+	}
+	info := map[string]any{"procs": runtime.GOMAXPROCS(0), "churn": churn, "calls": workers * per, "ms": took.Milliseconds()}
+	if set > 0 {
+		info["procs"] = set
+	}
+	info["overlapped"] = r.emitCalls(texts, calls)
+	r.conc = append(r.conc, info)
+}
+
+// the calls as ParseBegin / ParseEnd events in the order of the shared counter
+func (r *swRun) emitCalls(texts []swText, calls [][]swCall) (overlapped int) {
+	type at struct {
+		seq int64
+		c   *swCall
+		end bool
+	}
+	evs := []at{}
+	for w := range calls {
+		for i := range calls[w] {
+			c := &calls[w][i]
+			evs = append(evs, at{c.begin, c, false}, at{c.end, c, true})
+			if c.end-c.begin > 1 {
+				overlapped++
+			}
+		}
+	}
+	sort.Slice(evs, func(i, j int) bool { return evs[i].seq < evs[j].seq })
+	for _, e := range evs {
+		t := texts[e.c.text]
+		if !e.end {
+			r.rec.Emit("ParseBegin", trace.F{"call": e.c.id, "text": t.text})
+			r.kind["ParseBegin"]++
+			continue
+		}
+		r.rec.Emit("ParseEnd", trace.F{"call": e.c.id, "text": t.text, "abs": t.abs, "r": swResult(e.c.s, e.c.err, e.c.panicked)})
+		r.kind["ParseEnd"]++
+	}
+	return overlapped
+}
+
 func stmtwireMain(args []string) int {
 	fs := flag.NewFlagSet("stmtwire", flag.ExitOnError)
 	out := fs.String("out", "stmtwire.ndjson", "trace output")
@@ -758,6 +943,9 @@ func stmtwireMain(args []string) int {
 	nStmt := fs.Int("statements", 3000, "statements derived from the grammar")
 	nTree := fs.Int("trees", 3000, "expression trees built directly")
 	depth := fs.Int("depth", 2, "nesting bound")
+	nText := fs.Int("texts", 12, "overlapping calls: size of the fixed list of texts")
+	workers := fs.Int("workers", 4, "overlapping calls: goroutines parsing the list at once")
+	iters := fs.Int("iters", 30, "overlapping calls: how often each goroutine parses the whole list")
 	_ = fs.Parse(args)
 	time.Local = time.UTC
 	sum := &trace.Summary{Module: "StmtWire"}
@@ -795,12 +983,23 @@ func stmtwireMain(args []string) int {
 		d := 1 + rng.Intn(*depth+1)
 		run.exprWire(g.tree(d))
 	}
+	// overlapping calls: the same texts, several calls in flight
+	if *nText > 0 && *workers > 0 && *iters > 0 {
+		texts := swTextList(*seed, *depth, *nText)
+		run.concurrent(texts, 1, *workers, *iters, false)
+		run.concurrent(texts, 2, *workers, *iters, true)
+		run.concurrent(texts, 0, *workers, *iters, false)
+		if swOverlapLeg != nil {
+			swOverlapLeg(run, texts, rng)
+		}
+	}
 	_ = rec.Close()
 	_ = nrec.Close()
 	sum.Traces, sum.Events = rec.Counts()
 	nt, ne := nrec.Counts()
 	sum.Traces, sum.Events = sum.Traces+nt, sum.Events+ne
-	sum.Extra = map[string]any{"events_by_kind": run.kind, "statements_with_missing_child": run.nilChild, "nil_traces": nt, "parsed": run.parsed, "rejected_by_parser": run.failed, "parse_errors": run.errs}
+	sum.Extra = map[string]any{"events_by_kind": run.kind, "statements_with_missing_child": run.nilChild, "nil_traces": nt, "parsed": run.parsed, "rejected_by_parser": run.failed, "parse_errors": run.errs,
+		"concurrent": run.conc, "overlap_hook": swOverlapLeg != nil, "overlap_windows": run.overlapWindows}
 	sum.Print()
 	_ = os.Stdout.Sync()
 	return 0
